@@ -378,3 +378,21 @@ PROPS['C17'] = dict(
            dict(name='states_m3', harness='h_states', defs=['MODEL=3'], witnesses=['done', 'label_valid', 'label_out_of_range'], max_loop=20000),
            dict(name='operator_eq_mem', harness='h_operator', defs=['MODE=3', 'PAIRSET=0', 'MODES=3'], max_loop=50000, witnesses=['done', 'different_pair'])],
 )
+
+PROPS['C13'] = dict(
+    claim='The real IndexContainer4 / ElementWithPermFreq templates (instantiated with a stub element that returns a function chi_true '
+          'satisfying both exchange identities by construction) are executed for every history of container operations inside the bound: '
+          'whatever was filled or requested before, and whether the entry is stored or an alias, container(q)(n1,n2,n3) == chi_true(q;n1,n2,n3) '
+          'for a SYMBOLIC frequency triple, and the elements listed for bulk computation are exactly the elements the entries refer to '
+          '(which is what makes every listed element evaluable after a bulk computation).',
+    bounds={Q: 'histories of 2 operations from {fill(all), fill({q}), fill({q,q2}), lookup(q)}, indices in {0,1} (16 quadruples), frequencies in [-2,2]^3',
+            T: 'histories of 3 operations (first operation restricted to fill)'},
+    assumptions=['the true two-particle Green function satisfies the two exchange identities (property of the physics, C02)',
+                 'TwoParticleGF objects built for a quadruple are those of C02 (createElement passes the four operators in order: checked in unit tgfc_create)'],
+    outside=['indices beyond {0,1}', 'histories longer than the bound', 'the MPI distribution of a bulk computation (C06)'],
+    units=[dict(name='ic4_h1', harness='h_ic4', defs=['NOPS=1'], split={'op0': R(4), 'q0': R(16)}, witnesses=['done', 'alias_entry', 'stored_entry', 'query_absent'],
+                validate=[{'op0': 1, 'q0': 6, 'query': 9, 'n1': 1, 'n2': -2, 'n3': 0}]),
+           dict(name='ic4_h2', harness='h_ic4', defs=['NOPS=2', 'SYMFREQ=0'], split={'op0': R(4), 'q0': R(16)},
+                witnesses=['done', 'alias_entry', 'stored_entry', 'fill_two', 'lookup', 'fill_all']),
+           dict(name='ic4_h3', harness='h_ic4', defs=['NOPS=3', 'SYMFREQ=0'], split={'op0': [1, 2], 'q0': R(16), 'op1': R(4)}, tiers=[T], witnesses=['done', 'alias_entry'])],
+)
